@@ -7,6 +7,7 @@ import (
 	"go/types"
 	"os"
 	"sort"
+	"strings"
 	"time"
 
 	"golang.org/x/tools/go/packages"
@@ -147,6 +148,47 @@ func main() {
 			for _, c := range si.Calls {
 				fmt.Printf("    call %s %s.%s = %s\n", p.Pos(c.Call.Pos()), c.Callee.Name(), c.Param, c.Val)
 			}
+		}
+	case "escape":
+		// calls from the planar packages passing coordinate-typed values to module code outside them
+		planar := func(path string) bool {
+			return strings.HasPrefix(path, core.ModPath+"/xy") || path == core.ModPath+"/bigxy"
+		}
+		coordT := func(t types.Type) bool {
+			s := t.String()
+			return s == "[]float64" || strings.HasSuffix(s, "go-geom.Coord") || strings.HasSuffix(s, "[]github.com/twpayne/go-geom.Coord")
+		}
+		cnt := map[string]int{}
+		for _, fn := range p.SrcFuncs(true) {
+			if !planar(core.FnPkgPath(fn)) {
+				continue
+			}
+			for _, c := range eng.Calls(fn) {
+				o := eng.CalleeObj(c)
+				if o == nil || o.Pkg() == nil || planar(o.Pkg().Path()) || !strings.HasPrefix(o.Pkg().Path(), core.ModPath) {
+					continue
+				}
+				has := false
+				for _, a := range c.Common().Args {
+					if coordT(a.Type()) {
+						has = true
+					}
+				}
+				if c.Common().IsInvoke() && coordT(c.Common().Value.Type()) {
+					has = true
+				}
+				if has {
+					cnt[core.FuncName(fn)+" -> "+o.FullName()]++
+				}
+			}
+		}
+		var ks []string
+		for k := range cnt {
+			ks = append(ks, k)
+		}
+		sort.Strings(ks)
+		for _, k := range ks {
+			fmt.Println(cnt[k], k)
 		}
 	case "funcs":
 		for _, fn := range p.SrcFuncs(true) {
